@@ -1,7 +1,8 @@
 /-
-C13 — proved counter-examples: clauses of the property that the code as it is does NOT satisfy
-(plus, for the record, the counter-examples of a clause that was fixed in /repo).
-Each current witness is also a protocol line (`witnessLines` in Driver.lean) replayed on the real
+C13 — counter-examples.  No clause of the property fails of the code as it is now; the two clauses
+that failed of earlier code (websocket, missing origin) were repaired in /repo and their
+counter-examples are kept here as theorems about the OLD checks (`gateOld`, `gateOldOrigin`), with
+the protocol lines as regression cases in corpus/C13/.  A current witness would also be a protocol line (`witnessLines` in Driver.lean) replayed on the real
 adminHandler on every run; the oracle of the harness must still flag it (KNOWN-FINDING).
 -/
 import CaddyModel.C13.Lemmas
@@ -44,13 +45,15 @@ theorem websocket_old_code_fails :
 def wCfgEmptyOrigin : AdminCfg :=
   ⟨some [⟨[], emptyUrl⟩, ⟨str "localhost:2019", emptyUrl⟩], true, none⟩
 
-/-- "with origin enforcement on, a request whose Origin/Referer is missing is refused" fails on a
-    specific address when an allowed origin has an empty host: the missing header parses as the
-    empty URL, whose host is empty, and is "allowed". -/
-theorem origin_missing_refused_full_fails :
-    ∃ (cfg : AdminCfg) (a : Addr) (r : Req),
-      SpecificAddress a ∧ cfg.enforceOrigin = true ∧ OriginMissing r ∧ r.refererUrl = ⟨true, [], []⟩ ∧
-      Served (serveReal count (newAdminHandler cfg a false []) [] 3 r 0) :=
-  ⟨wCfgEmptyOrigin, exAddr, wReq [], by decide⟩
+/-- The former counter-example to "with origin enforcement on, a request whose Origin/Referer is
+    missing is refused", as a statement about the OLD `checkOrigin` (`gateOldOrigin`): on a
+    specific address with an allowed origin whose host is empty, the old gate let a request without
+    Origin/Referer pass (the absent header parsed as the empty URL, whose empty host "matched");
+    the current gate refuses it as missing.  (Its protocol line is a regression case in corpus/C13/.) -/
+theorem origin_missing_old_code_fails :
+    SpecificAddress exAddr ∧ wCfgEmptyOrigin.enforceOrigin = true ∧ OriginMissing (wReq []) ∧
+    gateOldOrigin (newAdminHandler wCfgEmptyOrigin exAddr false []) (wReq []) = .pass 1 ∧
+    gate (newAdminHandler wCfgEmptyOrigin exAddr false []) (wReq []) = .refuse .originMissing := by
+  decide
 
 end CaddyModel.C13
